@@ -27,7 +27,7 @@ type link interface {
 }
 type tcpLink struct{ pc *peerConn }
 
-func (l tcpLink) sendFrame(b []byte) error             { return l.pc.send(b) }
+func (l tcpLink) sendFrame(b []byte) error              { return l.pc.send(b) }
 func (l tcpLink) nextRequest(d time.Duration) *RefFrame { return l.pc.readFrame(d) }
 func (l tcpLink) drop()                                 { l.pc.close() }
 
